@@ -200,6 +200,7 @@ def _knobs(plan, dims):
         k["environ"] = k2["environ"]
         k["cwd"] = k2.get("cwd")
         k["cli_style"] = k2.get("cli_style", 0)      # another, equivalent spelling of the same command line
+        k["log_level"] = k2.get("log_level")
     if "schedule" in dims:
         k["sched_key"] = k2["sched_key"]
     if "buffers" in dims:
